@@ -614,6 +614,53 @@ func (c *Ctx) resolveGoType(name string) types.Type {
 
 // bindVar creates a bound logical variable of the named type.
 func (c *Ctx) bindVar(b SBinder, tag string) (*Val, []Term) {
+	v, ts := c.bindVar0(b, tag)
+	if tag == "q" || tag == "m" || tag == "a" {
+		for _, t := range ts {
+			c.boundNames = append(c.boundNames, t.S)
+		}
+	}
+	return v, ts
+}
+
+// capturesBound reports whether term s mentions a quantifier-bound variable other than the listed ones.
+func (c *Ctx) capturesBound(s string, except []Term) bool {
+	for _, n := range c.boundNames {
+		skip := false
+		for _, e := range except {
+			if e.S == n {
+				skip = true
+			}
+		}
+		if !skip && containsSym(s, n) {
+			return true
+		}
+	}
+	return false
+}
+
+// containsSym: s mentions the symbol n as a whole token.
+func containsSym(s, n string) bool {
+	for i := 0; ; {
+		j := strings.Index(s[i:], n)
+		if j < 0 {
+			return false
+		}
+		e := i + j + len(n)
+		if e >= len(s) || s[e] == ' ' || s[e] == ')' {
+			return true
+		}
+		i = e
+	}
+}
+
+// define records a definitional axiom (always part of every later obligation, never dropped with the path).
+func (c *Ctx) define(t Term) {
+	c.defs = append(c.defs, t)
+	c.St.Path = append(c.St.Path, t)
+}
+
+func (c *Ctx) bindVar0(b SBinder, tag string) (*Val, []Term) {
 	c.nbound++
 	t, s := c.specSort(b.Type)
 	base := fmt.Sprintf("%s!%s%d", sanitize(b.Name), tag, c.nbound)
@@ -633,7 +680,44 @@ func (c *Ctx) bindVar(b SBinder, tag string) (*Val, []Term) {
 	return Scalar(tm, t), []Term{tm}
 }
 
+// specLambda: array comprehension. A fresh array constant A with the defining axiom forall k. A[k] == body(k);
+// comprehensions with the same body (same state) share one constant.
+func (c *Ctx) specLambda(x *SQuant) *Val {
+	if len(x.Vars) != 1 {
+		c.refuse("lambda takes exactly one bound variable")
+	}
+	env := &specEnv{vars: map[string]*Val{}, up: c.bound}
+	v, ts := c.bindVar(x.Vars[0], "q")
+	env.vars[x.Vars[0].Name] = v
+	saved := c.bound
+	c.bound = env
+	n0 := len(c.St.Path)
+	body := c.evalSpec(x.Body)
+	c.bound = saved
+	c.St.Path = filterPath(c.St.Path, n0, ts)
+	if body.K != VScalar {
+		c.refuse("lambda body must be scalar")
+	}
+	if c.capturesBound(body.T.S, ts) {
+		c.refuse("lambda body depends on an enclosing bound variable: %s", body.T.S)
+	}
+	key := strings.ReplaceAll(body.T.S, ts[0].S, "!L")
+	if c.lambdaCache == nil {
+		c.lambdaCache = map[string]Term{}
+	}
+	if a, ok := c.lambdaCache[key]; ok {
+		return &Val{K: VLogic, T: a}
+	}
+	a := c.fresh("lam", ArrSort(SInt, body.T.Sort))
+	c.lambdaCache[key] = a
+	c.define(Forall(ts, StructEq(Select(a, ts[0]), body.T), []Term{Select(a, ts[0])}))
+	return &Val{K: VLogic, T: a}
+}
+
 func (c *Ctx) specQuant(x *SQuant) *Val {
+	if x.Lambda {
+		return c.specLambda(x)
+	}
 	env := &specEnv{vars: map[string]*Val{}, up: c.bound}
 	var vars []Term
 	for _, b := range x.Vars {
@@ -668,7 +752,7 @@ func filterPath(path []Term, from int, vars []Term) []Term {
 	for _, t := range path[from:] {
 		bad := false
 		for _, v := range vars {
-			if strings.Contains(t.S, v.S) {
+			if containsSym(t.S, v.S) {
 				bad = true
 				break
 			}
@@ -745,6 +829,41 @@ func (c *Ctx) specCall(x *SCall) *Val {
 				id = v.Arr
 			}
 			return Scalar(Ge(id, c.Fr.OldTop), bt)
+		case "footprintStable", "footprintFresh":
+			v := c.evalSpec(x.Args[0])
+			post := c.footprintEntries(v, nil, True, name)
+			var conj []Term
+			if name == "footprintFresh" {
+				for _, e := range post {
+					conj = append(conj, Forall(e.qvars, Implies(e.guard, Or(Ge(e.id, c.Fr.OldTop), Eq(e.id, IntLit(0))))))
+				}
+				return Scalar(And(conj...), bt)
+			}
+			savedOld := c.inOld
+			c.inOld = true
+			vo := c.evalSpec(x.Args[0])
+			pre := c.footprintEntries(vo, nil, True, name)
+			c.inOld = savedOld
+			for _, e := range post {
+				alts := []Term{Ge(e.id, c.Fr.OldTop), Eq(e.id, IntLit(0))}
+				for _, p := range pre {
+					alts = append(alts, Exists(p.qvars, And(p.guard, Eq(p.id, e.id))))
+				}
+				conj = append(conj, Forall(e.qvars, Implies(e.guard, Or(alts...))))
+			}
+			return Scalar(And(conj...), bt)
+		case "disjoint":
+			a, b := c.evalSpec(x.Args[0]), c.evalSpec(x.Args[1])
+			ea := c.footprintEntries(a, nil, True, name)
+			eb := c.footprintEntries(b, nil, True, name)
+			var conj []Term
+			for _, p := range ea {
+				for _, q := range eb {
+					vars := append(append([]Term{}, p.qvars...), q.qvars...)
+					conj = append(conj, Forall(vars, Implies(And(p.guard, q.guard), Or(Not(Eq(p.id, q.id)), Eq(p.id, IntLit(0))))))
+				}
+			}
+			return Scalar(And(conj...), bt)
 		case "allocated":
 			v := c.evalSpec(x.Args[0])
 			id := v.T
@@ -1036,6 +1155,40 @@ func (c *Ctx) applySpecFun(pi *PkgInfo, sf *SpecFun, args []*Val) *Val {
 	c.specDepth++
 	defer func() { c.specDepth-- }()
 	c.bound = env
+	if sf.View {
+		// evaluate the body over a canonical bound variable for the last parameter, name the resulting
+		// function of that variable by a logical array, and select the actual argument from it
+		last := sf.Params[len(sf.Params)-1]
+		actual := env.vars[last.Name]
+		if actual.K != VScalar {
+			c.refuse("vfun %s: last argument must be scalar", sf.Name)
+		}
+		bv, ts := c.bindVar(last, "q")
+		env.vars[last.Name] = bv
+		n0 := len(c.St.Path)
+		body := c.evalSpec(sf.Body)
+		c.St.Path = filterPath(c.St.Path, n0, ts)
+		if body.K != VScalar {
+			c.refuse("vfun %s: body must be scalar", sf.Name)
+		}
+		if c.capturesBound(body.T.S, ts) {
+			// depends on an enclosing bound variable: plain expansion
+			env.vars[last.Name] = actual
+			v := c.evalSpec(sf.Body)
+			return v
+		}
+		key := strings.ReplaceAll(body.T.S, ts[0].S, "!L")
+		if c.lambdaCache == nil {
+			c.lambdaCache = map[string]Term{}
+		}
+		a, ok := c.lambdaCache[key]
+		if !ok {
+			a = c.fresh("v$"+sf.Name, ArrSort(ts[0].Sort, body.T.Sort))
+			c.lambdaCache[key] = a
+			c.define(Forall(ts, StructEq(Select(a, ts[0]), body.T), []Term{Select(a, ts[0])}))
+		}
+		return Scalar(Select(a, actual.T), body.Typ)
+	}
 	v := c.evalSpec(sf.Body)
 	if sf.Ret != "" && v.K == VScalar {
 		t, s := c.specSort(sf.Ret)
